@@ -657,6 +657,50 @@ def spawn_not_fulfilled_by_ancestor(rng, s, b):
 
 
 @mutator("C05")
+def nested_spawn_from_threaded_non_ancestor(rng, s, b):
+    """A NESTED thread group spawns from an object promise that an action of an ENCLOSING thread group fulfils, while
+    that action is no ancestor of the nested group (neither its own checkpoint nor an inherited one leads to it)."""
+    gs = [g for g in s["groups"] if g["ctx"] is not None]
+    rng.shuffle(gs)
+    by_id = {g["id"]: g for g in s["groups"]}
+    for g in gs:
+        if any(h["src"][0] == "V" and h["src"][1] == g["id"] for h in s["groups"]):
+            continue
+        if any(d[0] == "cmp" and any(o[0] == "var" and o[1] == g["id"] for o in (d[1], d[3])) for c in s["checkpoints"] for d in c["deps"]):
+            continue
+        chain = _chain(s, g["ctx"][1])
+        mentioned = set()
+        for h in [g] + [by_id[i] for i in chain if i in by_id]:
+            if h["dep"] is None:
+                continue
+            stack, seen = [h["dep"][1]], set()
+            while stack:
+                cid = stack.pop()
+                if cid in seen:
+                    continue
+                seen.add(cid)
+                cp = next((c for c in s["checkpoints"] if c["id"] == cid), None)
+                if cp is None:
+                    continue
+                for d in cp["deps"]:
+                    if d[0] == "ref":
+                        stack.append(d[1][1])
+                    else:
+                        for o in (d[1], d[3]):
+                            if o[0] == "act":
+                                mentioned |= {o[1][1]} | b.anc.get(o[1][1], set())
+        cands = [p for p in s["promises"] if p["ctx"] is not None and p["ctx"][1] in chain and b.creator.get(p["id"]) is not None
+                 and b.creator.get(p["id"]) not in mentioned and b.list_paths(p["type"][1])]
+        if not cands:
+            continue
+        p = rng.choice(cands)
+        path = rng.choice(b.list_paths(p["type"][1]))[0]
+        g["src"] = ("P", ("promise", p["id"]), list(path))
+        return "nested spawn source fulfilled inside an enclosing thread group by an action that is no ancestor of the nested group"
+    return None
+
+
+@mutator("C05")
 def unused_thread_group(rng, s, b):
     gs = [g for g in s["groups"] if g["ctx"] is None]
     if not gs:
@@ -707,7 +751,7 @@ def edit_outside_fulfilment_context(rng, s, b):
     return "edit outside the context in which the promise is fulfilled"
 
 
-THREAD_ONLY = {"path_on_scalar_variable", "threaded_checkpoint_used_outside", "threaded_action_compared_outside", "second_threaded_operand_outside", "variable_used_outside",
+THREAD_ONLY = {"nested_spawn_from_threaded_non_ancestor", "path_on_scalar_variable", "threaded_checkpoint_used_outside", "threaded_action_compared_outside", "second_threaded_operand_outside", "variable_used_outside",
                "spawn_from_non_list", "spawn_not_fulfilled_by_ancestor", "unused_thread_group",
                "variable_name_repeats_in_chain", "promise_context_mismatch", "edit_outside_fulfilment_context"}
 
